@@ -46,7 +46,9 @@ def is_const(t):
 def build(repo, cfg, wd):
     tu = os.path.join(wd, "lib_tu.c")
     with open(tu, "w") as f:
-        f.write('#define VERIF_BIG_TABLES 1\n#include "cfg.h"\n#include "src/secp256k1.c"\n#include "src/precomputed_ecmult.c"\n#include "src/precomputed_ecmult_gen.c"\n')
+        # smallest table preset of harness/cfg.h: the set of symbols does not depend on the table sizes, and the
+        # shipped 1 MB tables make the JSON symbol table take ~15 min
+        f.write('#include "cfg.h"\n#include "src/secp256k1.c"\n#include "src/precomputed_ecmult.c"\n#include "src/precomputed_ecmult_gen.c"\n')
     gb = os.path.join(wd, "lib.gb")
     cmd = ["goto-cc", "-I" + os.path.join(VERIF, "harness"), "-I" + repo, "-I" + os.path.join(repo, "src"),
            "-I" + os.path.join(repo, "include")] + CFG[cfg] + ["-c", tu, "-o", gb]
